@@ -8,7 +8,7 @@ for f in sorted(glob.glob(os.path.join(V, "evidence", "C*.json"))):
     size = []
     for k in ("evaluations", "executions", "states", "transitions", "traces_validated_against_impl", "distinct_outcomes", "distinct_nontrivial"):
         if k in c: size.append("%s %s" % (k.replace("_", " "), format(c[k], ",")))
-    rows.append("| %s | %s | %s | %s | %s s | %d |" % (e["property_id"], e["tier"], "; ".join(size), "yes" if c.get("exhaustive") else "no (a part reached its deadline; see the evidence file)", e.get("wall_s", "?"), len(e.get("violations", []))))
+    rows.append("| %s | %s | %s | %s | %s s | %d |" % (e["property_id"], e["tier"], "; ".join(size), "yes" if c.get("exhaustive") else "no (a part reached its deadline; see the evidence file)", e.get("wall_s", "?"), (e.get("violations") if isinstance(e.get("violations"), int) else len(e.get("violations", [])))))
 tab = ("<!-- SIZES:BEGIN -->\nSizes of the last run of each check on the final tree (generated from `evidence/*.json` by `tools/gen_sizes.py`):\n\n"
        "| id | tier | measured | exhaustive within the stated bounds | wall | violations |\n|---|---|---|---|---|---|\n" + "\n".join(rows) + "\n<!-- SIZES:END -->")
 p = os.path.join(V, "DESIGN.md"); s = open(p).read()
